@@ -198,11 +198,11 @@ def run(ctx):
     for _ in range(ctx.n(300, 4000)):
         n = ctx.rng.randint(1, 6)
         p = np.array([ctx.rng.randint(1, 999) / 1000 for _ in range(n)])
-        size = np.array([float(ctx.rng.randint(1, 50)) for _ in range(n)])
+        size = np.array([ctx.rng.randint(1, 50) for _ in range(n)], dtype=ctx.rng.choice([float, float, np.int64, np.int16, np.int8, np.uint8]))
         vals = {"fisher": guarded(npc.fisher, p), "liptak": guarded(npc.liptak, p), "tippett": guarded(npc.tippett, p),
                 "inverse_n_weight": guarded(npc.inverse_n_weight, p, size)}
         want = {"fisher": -2 * sum(math.log(v) for v in p), "liptak": float(sum(norm.ppf(1 - v) for v in p)),
-                "tippett": max(1 - v for v in p), "inverse_n_weight": -sum(v / math.sqrt(s) for v, s in zip(p, size))}
+                "tippett": max(1 - v for v in p), "inverse_n_weight": -sum(v / math.sqrt(float(s)) for v, s in zip(p, size))}
         ctx.case(("comb", tuple(p), tuple(size)), True); ctx.count("combiner-formulas")
         i = ctx.rng.randrange(n); q = p.copy(); q[i] = min(0.9995, q[i] + ctx.rng.choice([0.0005, 0.01, 0.2]))
         vals2 = {"fisher": guarded(npc.fisher, q), "liptak": guarded(npc.liptak, q), "tippett": guarded(npc.tippett, q),
@@ -289,6 +289,13 @@ def run(ctx):
     # ---- rejected shapes, non-monotone user combiner
     bads = [([0.5], [[1.0]], "fisher"), ([0.2, 0.3], [[1.0, 2.0, 3.0]], "tippett"), ([0.2, 0.3, 0.4], [[1.0, 2.0]], "liptak"),
             ([], [[]], "fisher")]
+    # every mismatch of len(pvalues) against the number of columns, including matrices handed over transposed (rows == len(pvalues))
+    for n_p in range(2, 6):
+        for B_ in (1, 2, 3, 4, 5, 7, 200):
+            for m_ in range(1, 7):
+                if m_ != n_p and ctx.rng.random() < (1.0 if ctx.thorough() else 0.35):
+                    bads.append(([0.1 * (k + 1) for k in range(n_p)], [[float((i * 7 + j * 3) % 11) for j in range(m_)] for i in range(B_)], ctx.rng.choice(["fisher", "tippett", "liptak"])))
+    bads += [([0.2, 0.3, 0.4], [[float((i + j) % 5) for j in range(4)] for i in range(3)], "fisher"), ([0.2, 0.3, 0.4], [[float((i * j) % 7) for j in range(200)] for i in range(3)], "tippett")]
     for pvals, D, comb in bads:
         r = guarded(npc.npc, np.array(pvals), np.array(D), comb)
         ctx.case(("reject", tuple(pvals), comb), True); ctx.count("rejected-shapes")
